@@ -16,6 +16,7 @@ const (
 	TQuery
 	TPair
 	TFn
+	TColl // the value of (collection …): only with Gen.Variadic
 )
 
 type Ty struct {
@@ -29,6 +30,7 @@ var (
 	tInt   = &Ty{K: TInt}
 	tStr   = &Ty{K: TStr}
 	tQuery = &Ty{K: TQuery}
+	tColl  = &Ty{K: TColl}
 )
 
 func pairTy(a, b *Ty) *Ty           { return &Ty{K: TPair, A: a, B: b} }
@@ -61,12 +63,13 @@ type binding struct {
 
 // Gen generates programs type-directed from the builtin signatures.
 type Gen struct {
-	R       *hx.Rand
-	Budget  int  // remaining nodes
-	Queries bool // allow strings / queries / query builders (C22)
-	env     []binding
-	Feat    map[string]bool // features used, for the histogram
-	names   int
+	R        *hx.Rand
+	Budget   int  // remaining nodes
+	Queries  bool // allow strings / queries / query builders (C22)
+	Variadic bool // allow the variadic functions collection / call (C22; outside the C21 models)
+	env      []binding
+	Feat     map[string]bool // features used, for the histogram
+	names    int
 }
 
 var paramNames = []string{"a", "b", "c", "x", "y", "f", "g", "p"}
@@ -108,6 +111,9 @@ func (g *Gen) randTy(depth int) *Ty {
 	k := g.R.Intn(100)
 	switch {
 	case depth <= 0 || k < 55:
+		if g.Variadic && g.R.Chance(1, 10) {
+			return tColl
+		}
 		if g.Queries && g.R.Chance(1, 4) {
 			if g.R.Bool() {
 				return tStr
@@ -283,6 +289,8 @@ func (g *Gen) terminal(t *Ty) *Node {
 		return QL(g.query(1))
 	case TPair:
 		return C(S("pair"), g.terminal(t.A), g.terminal(t.B))
+	case TColl:
+		return g.collection(0)
 	default:
 		if bs := g.builtinsOfType(t); len(bs) > 0 && g.R.Bool() {
 			return S(g.R.Pick(bs))
@@ -336,9 +344,28 @@ func (g *Gen) intro(t *Ty, depth int) *Node {
 		}
 	case TPair:
 		return C(S("pair"), g.Expr(t.A, depth-1), g.Expr(t.B, depth-1))
+	case TColl:
+		return g.collection(depth)
 	default:
 		return g.fnIntro(t, depth)
 	}
+}
+
+// collection: (collection p…) with 0..3 pair arguments — half of them with none, the complete call of a
+// variadic function without arguments.  Keys and values are ints (query values inside a collection
+// would not be flattened by the outcome rendering).
+func (g *Gen) collection(depth int) *Node {
+	n := 0
+	if depth > 0 && g.R.Bool() {
+		n = 1 + g.R.Intn(3)
+	}
+	args := make([]*Node, n)
+	for i := range args {
+		args[i] = g.Expr(pairTy(tInt, tInt), depth-1)
+	}
+	g.feat("collection")
+	g.feat(fmt.Sprintf("collection-args:%d", n))
+	return C(S("collection"), args...)
 }
 
 func (g *Gen) pipe(n *Node) *Node {
@@ -402,6 +429,11 @@ func (g *Gen) fnIntro(t *Ty, depth int) *Node {
 // a lambda literal or a call may stand in function position.
 func (g *Gen) applyTo(f *Node, args []*Node) *Node {
 	direct := f.Kind == Lam || f.Kind == Call || (f.Kind == Sym && !g.isParam(f.Name))
+	if g.Variadic && !g.isParam("call") && g.R.Chance(1, 8) { // the variadic call f args…, with 0..n args
+		g.feat("call-variadic")
+		g.feat(fmt.Sprintf("call-variadic-args:%d", len(args)))
+		return C(S("call"), append([]*Node{f}, args...)...)
+	}
 	if direct && !g.R.Chance(1, 8) {
 		switch f.Kind {
 		case Lam:
@@ -541,5 +573,45 @@ func Mutate(r *hx.Rand, root **Node) string {
 		c := *calls[r.Intn(len(calls))]
 		c.Fn = I(5)
 		return "literal-fn"
+	}
+}
+
+// NoargProgram: a call without arguments of one function of fns — whatever its arity, variadic or not —
+// at the root of the program, as an argument, under a first/pair round trip, in a lambda body or passed
+// to a lambda; optionally called again with arguments.
+func NoargProgram(r *hx.Rand, fns []string) (*Node, map[string]bool) {
+	f := fns[r.Intn(len(fns))]
+	feat := map[string]bool{"noarg-any": true, "noarg:" + f: true}
+	inner := C(S(f))
+	if r.Chance(1, 6) {
+		inner = C(inner) // ((f))
+		feat["noarg-twice"] = true
+	}
+	k := I(r.Intn(9))
+	switch r.Intn(7) {
+	case 0:
+		feat["noarg-pos:root"] = true
+		return inner, feat
+	case 1:
+		feat["noarg-pos:arg"] = true
+		return C(S("pair"), inner, k), feat
+	case 2:
+		feat["noarg-pos:arg"] = true
+		return C(S("first"), C(S("pair"), inner, k)), feat
+	case 3:
+		feat["noarg-pos:lambda-body"] = true
+		feat["lambda"] = true
+		return C(L([]string{"x"}, C(S("pair"), S("x"), inner)), k), feat
+	case 4:
+		feat["noarg-pos:lambda-arg"] = true
+		feat["lambda"] = true
+		return C(L([]string{"x"}, C(S("pair"), S("x"), k)), inner), feat
+	case 5:
+		feat["noarg-pos:called"] = true
+		return C(inner, I(r.Intn(9)), I(r.Intn(9))), feat
+	default:
+		feat["noarg-pos:call1"] = true
+		feat["lambda"] = true
+		return C(S("call1"), L([]string{"x"}, S("x")), inner), feat
 	}
 }
